@@ -161,17 +161,6 @@ mod verif_c09 {
         assert!(state_b_suspended(w, x, |s| num(s, v)), "set-up state = state proved for the yield step");
     }
 
-    macro_rules! c09_proof {
-        ($name:ident, $body:block) => {
-            #[kani::proof]
-            #[kani::unwind(5)]
-            #[kani::stub(std::fmt::format, fmt_stub)]
-            #[kani::stub(crate::vm::Vm::new_root_obj_err_from_error, crate::vm::verif_vm::err_instance_stub)]
-            #[kani::stub(crate::vm::Vm::new_error_from_value, crate::vm::verif_vm::error_from_value_stub)]
-            fn $name() $body
-        };
-    }
-
     // ---- step 1: calling a new fiber with an argument -------------------------------------------------
     fn call_new_fiber_case(extra: usize) {
         let mut sa = FiberStore::empty();
@@ -204,9 +193,30 @@ mod verif_c09 {
         std::mem::forget(r);
         std::mem::forget(w);
     }
-    c09_proof!(c09_call_new_fiber_passes_argument_depth0, { call_new_fiber_case(0) });
-    c09_proof!(c09_call_new_fiber_passes_argument_depth1, { call_new_fiber_case(1) });
-    c09_proof!(c09_call_new_fiber_passes_argument_depth2, { call_new_fiber_case(2) });
+    #[kani::proof]
+    #[kani::unwind(5)]
+    #[kani::stub(std::fmt::format, fmt_stub)]
+    #[kani::stub(crate::vm::Vm::new_root_obj_err_from_error, crate::vm::verif_vm::err_instance_stub)]
+    #[kani::stub(crate::vm::Vm::new_error_from_value, crate::vm::verif_vm::error_from_value_stub)]
+    fn c09_call_new_fiber_passes_argument_depth0() {
+        call_new_fiber_case(0);
+    }
+    #[kani::proof]
+    #[kani::unwind(5)]
+    #[kani::stub(std::fmt::format, fmt_stub)]
+    #[kani::stub(crate::vm::Vm::new_root_obj_err_from_error, crate::vm::verif_vm::err_instance_stub)]
+    #[kani::stub(crate::vm::Vm::new_error_from_value, crate::vm::verif_vm::error_from_value_stub)]
+    fn c09_call_new_fiber_passes_argument_depth1() {
+        call_new_fiber_case(1);
+    }
+    #[kani::proof]
+    #[kani::unwind(5)]
+    #[kani::stub(std::fmt::format, fmt_stub)]
+    #[kani::stub(crate::vm::Vm::new_root_obj_err_from_error, crate::vm::verif_vm::err_instance_stub)]
+    #[kani::stub(crate::vm::Vm::new_error_from_value, crate::vm::verif_vm::error_from_value_stub)]
+    fn c09_call_new_fiber_passes_argument_depth2() {
+        call_new_fiber_case(2);
+    }
 
     // ---- step 2: yield with / without a value -----------------------------------------------------------
     fn yield_case(with_value: bool) {
@@ -247,8 +257,22 @@ mod verif_c09 {
         std::mem::forget(r);
         std::mem::forget(w);
     }
-    c09_proof!(c09_yield_returns_value_to_caller_with_value, { yield_case(true) });
-    c09_proof!(c09_yield_returns_value_to_caller_without_value, { yield_case(false) });
+    #[kani::proof]
+    #[kani::unwind(5)]
+    #[kani::stub(std::fmt::format, fmt_stub)]
+    #[kani::stub(crate::vm::Vm::new_root_obj_err_from_error, crate::vm::verif_vm::err_instance_stub)]
+    #[kani::stub(crate::vm::Vm::new_error_from_value, crate::vm::verif_vm::error_from_value_stub)]
+    fn c09_yield_returns_value_to_caller_with_value() {
+        yield_case(true);
+    }
+    #[kani::proof]
+    #[kani::unwind(5)]
+    #[kani::stub(std::fmt::format, fmt_stub)]
+    #[kani::stub(crate::vm::Vm::new_root_obj_err_from_error, crate::vm::verif_vm::err_instance_stub)]
+    #[kani::stub(crate::vm::Vm::new_error_from_value, crate::vm::verif_vm::error_from_value_stub)]
+    fn c09_yield_returns_value_to_caller_without_value() {
+        yield_case(false);
+    }
 
     // ---- step 3: resuming a suspended fiber with / without an argument ------------------------------------
     fn resume_case(with_arg: bool) {
@@ -288,11 +312,30 @@ mod verif_c09 {
         std::mem::forget(r);
         std::mem::forget(w);
     }
-    c09_proof!(c09_resume_passes_value_to_yield_with_arg, { resume_case(true) });
-    c09_proof!(c09_resume_passes_value_to_yield_without_arg, { resume_case(false) });
+    #[kani::proof]
+    #[kani::unwind(5)]
+    #[kani::stub(std::fmt::format, fmt_stub)]
+    #[kani::stub(crate::vm::Vm::new_root_obj_err_from_error, crate::vm::verif_vm::err_instance_stub)]
+    #[kani::stub(crate::vm::Vm::new_error_from_value, crate::vm::verif_vm::error_from_value_stub)]
+    fn c09_resume_passes_value_to_yield_with_arg() {
+        resume_case(true);
+    }
+    #[kani::proof]
+    #[kani::unwind(5)]
+    #[kani::stub(std::fmt::format, fmt_stub)]
+    #[kani::stub(crate::vm::Vm::new_root_obj_err_from_error, crate::vm::verif_vm::err_instance_stub)]
+    #[kani::stub(crate::vm::Vm::new_error_from_value, crate::vm::verif_vm::error_from_value_stub)]
+    fn c09_resume_passes_value_to_yield_without_arg() {
+        resume_case(false);
+    }
 
     // ---- step 4: a fiber's body returns ---------------------------------------------------------------------
-    c09_proof!(c09_return_finishes_fiber, {
+    #[kani::proof]
+    #[kani::unwind(5)]
+    #[kani::stub(std::fmt::format, fmt_stub)]
+    #[kani::stub(crate::vm::Vm::new_root_obj_err_from_error, crate::vm::verif_vm::err_instance_stub)]
+    #[kani::stub(crate::vm::Vm::new_error_from_value, crate::vm::verif_vm::error_from_value_stub)]
+    fn c09_return_finishes_fiber() {
         let mut sa = FiberStore::empty();
         let mut sb = FiberStore::empty();
         let mut w = world(&mut sa, &mut sb, 1);
@@ -313,11 +356,16 @@ mod verif_c09 {
         assert!(vm_cache_coherent(&w.vm), "cached fiber pointer, ip and chunk denote the running fiber");
         std::mem::forget(r);
         std::mem::forget(w);
-    });
+    }
 
     // ---- step 5: rejected calls leave every fiber's links, frames and the running fiber untouched ------------
     /// (a) a finished fiber cannot be called again.
-    c09_proof!(c09_finished_fiber_cannot_be_called, {
+    #[kani::proof]
+    #[kani::unwind(5)]
+    #[kani::stub(std::fmt::format, fmt_stub)]
+    #[kani::stub(crate::vm::Vm::new_root_obj_err_from_error, crate::vm::verif_vm::err_instance_stub)]
+    #[kani::stub(crate::vm::Vm::new_error_from_value, crate::vm::verif_vm::error_from_value_stub)]
+    fn c09_finished_fiber_cannot_be_called() {
         let mut sa = FiberStore::empty();
         let mut sb = FiberStore::empty();
         let mut w = world(&mut sa, &mut sb, 1);
@@ -339,7 +387,7 @@ mod verif_c09 {
         assert!(vm_cache_coherent(&w.vm), "cached state coherent");
         std::mem::forget(r);
         std::mem::forget(w);
-    });
+    }
 
     /// (c) a new fiber called with the wrong number of arguments.
     fn new_fiber_wrong_argc_case(argc: usize) {
@@ -363,11 +411,30 @@ mod verif_c09 {
         std::mem::forget(r);
         std::mem::forget(w);
     }
-    c09_proof!(c09_new_fiber_wrong_argc_0, { new_fiber_wrong_argc_case(0) });
-    c09_proof!(c09_new_fiber_wrong_argc_2, { new_fiber_wrong_argc_case(2) });
+    #[kani::proof]
+    #[kani::unwind(5)]
+    #[kani::stub(std::fmt::format, fmt_stub)]
+    #[kani::stub(crate::vm::Vm::new_root_obj_err_from_error, crate::vm::verif_vm::err_instance_stub)]
+    #[kani::stub(crate::vm::Vm::new_error_from_value, crate::vm::verif_vm::error_from_value_stub)]
+    fn c09_new_fiber_wrong_argc_0() {
+        new_fiber_wrong_argc_case(0);
+    }
+    #[kani::proof]
+    #[kani::unwind(5)]
+    #[kani::stub(std::fmt::format, fmt_stub)]
+    #[kani::stub(crate::vm::Vm::new_root_obj_err_from_error, crate::vm::verif_vm::err_instance_stub)]
+    #[kani::stub(crate::vm::Vm::new_error_from_value, crate::vm::verif_vm::error_from_value_stub)]
+    fn c09_new_fiber_wrong_argc_2() {
+        new_fiber_wrong_argc_case(2);
+    }
 
     /// (c') resuming a suspended fiber with two arguments.
-    c09_proof!(c09_resume_with_two_args_rejected, {
+    #[kani::proof]
+    #[kani::unwind(5)]
+    #[kani::stub(std::fmt::format, fmt_stub)]
+    #[kani::stub(crate::vm::Vm::new_root_obj_err_from_error, crate::vm::verif_vm::err_instance_stub)]
+    #[kani::stub(crate::vm::Vm::new_error_from_value, crate::vm::verif_vm::error_from_value_stub)]
+    fn c09_resume_with_two_args_rejected() {
         let mut sa = FiberStore::empty();
         let mut sb = FiberStore::empty();
         let mut w = world(&mut sa, &mut sb, 1);
@@ -387,7 +454,7 @@ mod verif_c09 {
         assert!(vm_cache_coherent(&w.vm), "cached state coherent");
         std::mem::forget(r);
         std::mem::forget(w);
-    });
+    }
 
     /// (a') the target HAS a caller (it is running, or waiting on a callee): always rejected.
     /// Chain A -> B -> C built by the real load_fiber; C calls itself or the waiting ancestor B.
@@ -426,10 +493,38 @@ mod verif_c09 {
         std::mem::forget(r);
         std::mem::forget(w);
     }
-    c09_proof!(c09_reentrant_call_rejected_self_with_arg, { reentrant_case(true, true) });
-    c09_proof!(c09_reentrant_call_rejected_self_without_arg, { reentrant_case(true, false) });
-    c09_proof!(c09_reentrant_call_rejected_ancestor_with_arg, { reentrant_case(false, true) });
-    c09_proof!(c09_reentrant_call_rejected_ancestor_without_arg, { reentrant_case(false, false) });
+    #[kani::proof]
+    #[kani::unwind(5)]
+    #[kani::stub(std::fmt::format, fmt_stub)]
+    #[kani::stub(crate::vm::Vm::new_root_obj_err_from_error, crate::vm::verif_vm::err_instance_stub)]
+    #[kani::stub(crate::vm::Vm::new_error_from_value, crate::vm::verif_vm::error_from_value_stub)]
+    fn c09_reentrant_call_rejected_self_with_arg() {
+        reentrant_case(true, true);
+    }
+    #[kani::proof]
+    #[kani::unwind(5)]
+    #[kani::stub(std::fmt::format, fmt_stub)]
+    #[kani::stub(crate::vm::Vm::new_root_obj_err_from_error, crate::vm::verif_vm::err_instance_stub)]
+    #[kani::stub(crate::vm::Vm::new_error_from_value, crate::vm::verif_vm::error_from_value_stub)]
+    fn c09_reentrant_call_rejected_self_without_arg() {
+        reentrant_case(true, false);
+    }
+    #[kani::proof]
+    #[kani::unwind(5)]
+    #[kani::stub(std::fmt::format, fmt_stub)]
+    #[kani::stub(crate::vm::Vm::new_root_obj_err_from_error, crate::vm::verif_vm::err_instance_stub)]
+    #[kani::stub(crate::vm::Vm::new_error_from_value, crate::vm::verif_vm::error_from_value_stub)]
+    fn c09_reentrant_call_rejected_ancestor_with_arg() {
+        reentrant_case(false, true);
+    }
+    #[kani::proof]
+    #[kani::unwind(5)]
+    #[kani::stub(std::fmt::format, fmt_stub)]
+    #[kani::stub(crate::vm::Vm::new_root_obj_err_from_error, crate::vm::verif_vm::err_instance_stub)]
+    #[kani::stub(crate::vm::Vm::new_error_from_value, crate::vm::verif_vm::error_from_value_stub)]
+    fn c09_reentrant_call_rejected_ancestor_without_arg() {
+        reentrant_case(false, false);
+    }
 
     /// (b) yield with no caller (module-level code): an error, nothing switches.
     fn yield_without_caller_case(argc: usize) {
@@ -452,17 +547,43 @@ mod verif_c09 {
         std::mem::forget(r);
         std::mem::forget(w);
     }
-    c09_proof!(c09_yield_without_caller_is_error_with_value, { yield_without_caller_case(1) });
-    c09_proof!(c09_yield_without_caller_is_error_without_value, { yield_without_caller_case(0) });
-    c09_proof!(c09_yield_with_two_values_is_error, { yield_without_caller_case(2) });
+    #[kani::proof]
+    #[kani::unwind(5)]
+    #[kani::stub(std::fmt::format, fmt_stub)]
+    #[kani::stub(crate::vm::Vm::new_root_obj_err_from_error, crate::vm::verif_vm::err_instance_stub)]
+    #[kani::stub(crate::vm::Vm::new_error_from_value, crate::vm::verif_vm::error_from_value_stub)]
+    fn c09_yield_without_caller_is_error_with_value() {
+        yield_without_caller_case(1);
+    }
+    #[kani::proof]
+    #[kani::unwind(5)]
+    #[kani::stub(std::fmt::format, fmt_stub)]
+    #[kani::stub(crate::vm::Vm::new_root_obj_err_from_error, crate::vm::verif_vm::err_instance_stub)]
+    #[kani::stub(crate::vm::Vm::new_error_from_value, crate::vm::verif_vm::error_from_value_stub)]
+    fn c09_yield_without_caller_is_error_without_value() {
+        yield_without_caller_case(0);
+    }
+    #[kani::proof]
+    #[kani::unwind(5)]
+    #[kani::stub(std::fmt::format, fmt_stub)]
+    #[kani::stub(crate::vm::Vm::new_root_obj_err_from_error, crate::vm::verif_vm::err_instance_stub)]
+    #[kani::stub(crate::vm::Vm::new_error_from_value, crate::vm::verif_vm::error_from_value_stub)]
+    fn c09_yield_with_two_values_is_error() {
+        yield_without_caller_case(2);
+    }
 
     /// Twin: must FAIL.
-    c09_proof!(c09_twin_must_fail, {
+    #[kani::proof]
+    #[kani::unwind(5)]
+    #[kani::stub(std::fmt::format, fmt_stub)]
+    #[kani::stub(crate::vm::Vm::new_root_obj_err_from_error, crate::vm::verif_vm::err_instance_stub)]
+    #[kani::stub(crate::vm::Vm::new_error_from_value, crate::vm::verif_vm::error_from_value_stub)]
+    fn c09_twin_must_fail() {
         let mut sa = FiberStore::empty();
         let mut sb = FiberStore::empty();
         let mut w = world(&mut sa, &mut sb, 1);
         let x: f64 = kani::any();
         setup_call_b(&mut w, x);
         assert!(false, "twin");
-    });
+    }
 }
